@@ -1471,3 +1471,9 @@ CASES += [
     dict(name="wt-growth-lt-ok", file=WMC, rule="WT", props=["C07"], expect=None,
          old="""        while n >= self.var_to_val.len() {""", new="""        while self.var_to_val.len() <= n {"""),
 ]
+
+CASES += [
+    dict(name="D10-weight-table-sized-by-entries", file=WMC, rule="IC", props=["C07", "C08"], expect="WmcParams::<T>::new:from_elem",
+         old="""        let mut var_to_val_vec: Vec<Option<(T, T)>> = vec![None; table_len];""",
+         new="""        let mut var_to_val_vec: Vec<Option<(T, T)>> = vec![None; var_to_val.len()];"""),
+]
